@@ -732,7 +732,11 @@ def exec_xrfm(p, drv):
     # batches that leave some leaves empty: the rows of one leaf only, and single rows - the Jacobian of predict at a row
     # does not depend on which other rows are in the batch (the full-batch values are the ones checked above)
     sub_checked = 0
-    subs = [[j for j, _ in rows] for _, _, rows in by_leaf.values()] + [[j] for _, _, rows in by_leaf.values() for j, _ in rows[:2]]
+    # fresh rows only: a row that coincides with a center carries the self-term leak of the expansion-distance kernels,
+    # whose size depends on the batch shape (float32, amplified for q < 1; see l2_leak_terms) - not a routing effect
+    fresh = lambda rows: [j for j, _ in rows if j < p['n_query']]    # noqa: E731
+    subs = [fresh(rows) for _, _, rows in by_leaf.values()] + [[j] for _, _, rows in by_leaf.values() for j in fresh(rows)[:2]]
+    subs = [js for js in subs if js]
     for js in subs:
         try:
             Gs = model.get_grads(Zq[js]).double()
